@@ -5,7 +5,7 @@ import ast
 import os
 
 LIMIT_ATTRS = ('_send_record_limit', '_recv_record_limit', 'send_record_limit', 'recv_record_limit',
-               '_peer_record_size_limit', '_user_record_limit', 'recordSize')
+               '_peer_record_size_limit', '_own_record_size_limit', '_user_record_limit', 'recordSize')
 FLAG_ATTRS = ('_middlebox_compat_mode', 'allow_plaintext_alert', 'early_data_ok', 'max_early_data')
 FILES = ('tlslite/tlsconnection.py', 'tlslite/tlsrecordlayer.py', 'tlslite/recordlayer.py')
 
@@ -23,10 +23,12 @@ class _V(ast.NodeVisitor):
         self.key_sites = []
         self.guard_sites = []
         self.flag_sites = []
+        self.last_switch = None
         self.prev_defrag_guard = {}
 
     def visit_FunctionDef(self, node):
         self.func.append(node.name)
+        self.last_switch = None
         saved, self.guards = self.guards, []
         self.prev_defrag_guard[node.name] = None
         self.generic_visit(node)
@@ -51,7 +53,8 @@ class _V(ast.NodeVisitor):
         for tg in node.targets:
             if isinstance(tg, ast.Attribute) and tg.attr in LIMIT_ATTRS:
                 self.limit_sites.append((self.fname, self.func[-1] if self.func else '<module>', _src(tg),
-                                         ' && '.join(self.guards), _src(node.value)))
+                                         ' && '.join(self.guards), _src(node.value),
+                                         'after ' + self.last_switch if self.last_switch else 'no key switch before'))
             if isinstance(tg, ast.Attribute) and tg.attr in FLAG_ATTRS:
                 self.flag_sites.append((self.fname, self.func[-1] if self.func else '<module>', _src(tg),
                                         ' && '.join(self.guards), _src(node.value)))
@@ -59,6 +62,9 @@ class _V(ast.NodeVisitor):
 
     def visit_Call(self, node):
         f = node.func
+        if isinstance(f, ast.Attribute) and f.attr in ('_changeWriteState', '_changeReadState') and self.func \
+                and self.func[-1] not in ('_changeWriteState', '_changeReadState'):
+            self.last_switch = f.attr
         if isinstance(f, ast.Attribute) and f.attr in ('_changeReadState', 'changeReadState',
                                                         'calcTLS1_3KeyUpdate_sender') and self.func:
             if not (self.func[-1] == '_changeReadState'):
@@ -81,26 +87,29 @@ def scan(repo):
     return lim, key, grd, flg
 
 
-# ---- tables the C01/C02 models were written against (/repo 7b4ef0e); regenerate with `python c01_sites.py /repo`
+# ---- tables the C01/C02 models were written against (/repo 7ffe769); regenerate with `python c01_sites.py /repo`
 EXPECTED_LIMIT_SITES = [
-    (('tlsconnection.py', '__init__', 'self._peer_record_size_limit', '', 'None'), 'default / plain setter'),
-    (('tlsconnection.py', '_clientGetServerHello', 'self._peer_record_size_limit', 'size_limit_ext', 'size_limit_ext.record_size_limit'), 'TLS<=1.2 client: extension value kept until Finished (send_limit_after false true)'),
-    (('tlsconnection.py', '_clientTLS13Handshake', 'self._send_record_limit', 'size_limit_ext', 'size_limit_ext.record_size_limit - 1'), 'send_limit_after true true ext'),
-    (('tlsconnection.py', '_clientTLS13Handshake', 'self._recv_record_limit', 'size_limit_ext', 'min(2 ** 14, settings.record_size_limit - 1)'), 'recv_limit_after true own'),
-    (('tlsconnection.py', '_serverGetClientHello', 'self._send_record_limit', 'size_limit_ext && settings.record_size_limit && version >= (3, 4)', 'min(2 ** 14, size_limit_ext.record_size_limit - 1)'), 'send_limit_after true false ext'),
-    (('tlsconnection.py', '_serverGetClientHello', 'self._recv_record_limit', 'size_limit_ext && settings.record_size_limit && version >= (3, 4)', 'min(2 ** 14, settings.record_size_limit - 1)'), 'recv_limit_after true own / HelloRetryRequest: 2^14 while the second ClientHello is read'),
-    (('tlsconnection.py', '_serverGetClientHello', 'self._peer_record_size_limit', 'size_limit_ext && settings.record_size_limit && not (version >= (3, 4))', 'min(2 ** 14, size_limit_ext.record_size_limit)'), 'TLS<=1.2 server: min(2^14, ext) kept until Finished (send_limit_after false false)'),
-    (('tlsconnection.py', '_serverGetClientHello', 'self._recv_record_limit', 'version > (3, 3) && hrr_ext', '2 ** 14'), 'recv_limit_after true own / HelloRetryRequest: 2^14 while the second ClientHello is read'),
-    (('tlsconnection.py', '_serverGetClientHello', 'self._recv_record_limit', 'version > (3, 3) && hrr_ext', 'recv_limit'), 'recv_limit_after true own / HelloRetryRequest: 2^14 while the second ClientHello is read'),
-    (('tlsconnection.py', '_sendFinished', 'self._send_record_limit', 'self._peer_record_size_limit', 'self._peer_record_size_limit'), 'TLS<=1.2, full AND resumed handshakes, both roles: applied whenever the peer sent the extension'),
-    (('tlsconnection.py', '_sendFinished', 'self._recv_record_limit', 'self._peer_record_size_limit', 'min(2 ** 14, settings.record_size_limit)'), 'recv_limit_after false own'),
-    (('tlsrecordlayer.py', '__init__', 'self._user_record_limit', '', '16384'), 'default / plain setter'),
-    (('tlsrecordlayer.py', '_send_record_limit', 'self._recordLayer.send_record_limit', '', 'value'), 'default / plain setter'),
-    (('tlsrecordlayer.py', '_recv_record_limit', 'self._recordLayer.recv_record_limit', '', 'value'), 'default / plain setter'),
-    (('tlsrecordlayer.py', 'recordSize', 'self._user_record_limit', '', 'value'), 'default / plain setter'),
-    (('recordlayer.py', '__init__', 'self.recv_record_limit', '', '2 ** 14'), 'default / plain setter'),
-    (('recordlayer.py', '__init__', 'self.send_record_limit', '', '2 ** 14'), 'default / plain setter'),
-    (('recordlayer.py', 'recv_record_limit', 'self._recordSocket.recv_record_limit', '', 'value'), 'default / plain setter'),
+    (('tlsconnection.py', '__init__', 'self._peer_record_size_limit', '', 'None', 'no key switch before'), 'default / plain setter'),
+    (('tlsconnection.py', '__init__', 'self._own_record_size_limit', '', 'None', 'no key switch before'), 'default / plain setter'),
+    (('tlsconnection.py', '_clientGetServerHello', 'self._peer_record_size_limit', 'size_limit_ext', 'size_limit_ext.record_size_limit', 'no key switch before'), "TLS<=1.2 client: the peer's value, kept until the WRITE state switch"),
+    (('tlsconnection.py', '_clientGetServerHello', 'self._own_record_size_limit', 'size_limit_ext && settings.record_size_limit', 'min(2 ** 14, settings.record_size_limit)', 'no key switch before'), 'TLS<=1.2 client: own value min(2^14, setting), kept until the READ state switch'),
+    (('tlsconnection.py', '_clientTLS13Handshake', 'self._send_record_limit', 'size_limit_ext', 'size_limit_ext.record_size_limit - 1', 'after _changeReadState'), 'send_limit_after true true ext (TLS 1.3: immediately, records are protected from here)'),
+    (('tlsconnection.py', '_clientTLS13Handshake', 'self._recv_record_limit', 'size_limit_ext', 'min(2 ** 14, settings.record_size_limit - 1)', 'after _changeReadState'), 'recv_limit_after true own'),
+    (('tlsconnection.py', '_serverGetClientHello', 'self._send_record_limit', 'size_limit_ext && settings.record_size_limit && version >= (3, 4)', 'min(2 ** 14, size_limit_ext.record_size_limit - 1)', 'no key switch before'), 'send_limit_after true false ext'),
+    (('tlsconnection.py', '_serverGetClientHello', 'self._recv_record_limit', 'size_limit_ext && settings.record_size_limit && version >= (3, 4)', 'min(2 ** 14, settings.record_size_limit - 1)', 'no key switch before'), 'recv_limit_after true own / HelloRetryRequest: 2^14 while the second ClientHello is read'),
+    (('tlsconnection.py', '_serverGetClientHello', 'self._peer_record_size_limit', 'size_limit_ext && settings.record_size_limit && not (version >= (3, 4))', 'min(2 ** 14, size_limit_ext.record_size_limit)', 'no key switch before'), 'TLS<=1.2 server: min(2^14, ext), kept until the WRITE state switch'),
+    (('tlsconnection.py', '_serverGetClientHello', 'self._own_record_size_limit', 'size_limit_ext && settings.record_size_limit && not (version >= (3, 4))', 'min(2 ** 14, settings.record_size_limit)', 'no key switch before'), 'TLS<=1.2 server: own value, kept until the READ state switch'),
+    (('tlsconnection.py', '_serverGetClientHello', 'self._recv_record_limit', 'version > (3, 3) && hrr_ext', '2 ** 14', 'no key switch before'), 'recv_limit_after true own / HelloRetryRequest: 2^14 while the second ClientHello is read'),
+    (('tlsconnection.py', '_serverGetClientHello', 'self._recv_record_limit', 'version > (3, 3) && hrr_ext', 'recv_limit', 'no key switch before'), 'recv_limit_after true own / HelloRetryRequest: 2^14 while the second ClientHello is read'),
+    (('tlsconnection.py', '_sendFinished', 'self._send_record_limit', 'self._peer_record_size_limit', 'self._peer_record_size_limit', 'after _changeWriteState'), 'limit_at_phase: send limit takes effect with the WRITE state switch (full and resumed handshakes, both roles)'),
+    (('tlsconnection.py', '_getFinished', 'self._recv_record_limit', 'self._peer_record_size_limit and self._own_record_size_limit', 'self._own_record_size_limit', 'after _changeReadState'), 'limit_at_phase: receive limit takes effect with the READ state switch (RFC 8449 section 4: protected records only)'),
+    (('tlsrecordlayer.py', '__init__', 'self._user_record_limit', '', '16384', 'no key switch before'), 'default / plain setter'),
+    (('tlsrecordlayer.py', '_send_record_limit', 'self._recordLayer.send_record_limit', '', 'value', 'no key switch before'), 'default / plain setter'),
+    (('tlsrecordlayer.py', '_recv_record_limit', 'self._recordLayer.recv_record_limit', '', 'value', 'no key switch before'), 'default / plain setter'),
+    (('tlsrecordlayer.py', 'recordSize', 'self._user_record_limit', '', 'value', 'no key switch before'), 'default / plain setter'),
+    (('recordlayer.py', '__init__', 'self.recv_record_limit', '', '2 ** 14', 'no key switch before'), 'default / plain setter'),
+    (('recordlayer.py', '__init__', 'self.send_record_limit', '', '2 ** 14', 'no key switch before'), 'default / plain setter'),
+    (('recordlayer.py', 'recv_record_limit', 'self._recordSocket.recv_record_limit', '', 'value', 'no key switch before'), 'default / plain setter'),
 ]
 EXPECTED_KEY_SITES = [
     ('tlsconnection.py', '_clientTLS13Handshake', '_changeReadState', '', None),
